@@ -431,9 +431,17 @@ def _fail(chk, rec, group=None):
         chk.count("known:" + fid[0])
         if key not in chk.known_groups:
             chk.known_groups.add(key)
-            chk.known(fid[0], fid[1])
+            chk.known_printed[fid[0]] = chk.known_printed.get(fid[0], 0) + 1
+            if chk.known_printed[fid[0]] <= 4:          # further groups of the same finding are only counted
+                chk.known(fid[0], fid[1])
         return False
-    chk.violation(rec["what"], rec)
+    vkey = (rec.get("kind"), rec.get("name") or rec.get("family"), rec.get("which"))
+    chk.viol_groups[vkey] = chk.viol_groups.get(vkey, 0) + 1
+    if chk.viol_groups[vkey] <= 3:
+        chk.violation(rec["what"], rec)
+    else:
+        chk.count("violations-not-printed(same kind and family, after the first 3)")
+        chk.suppressed += 1
     return True
 
 
@@ -453,6 +461,9 @@ def run(tier, only=None):
     chk = Check(PROP, tier)
     chk.harness_errors = []
     chk.known_groups = set()
+    chk.known_printed = {}
+    chk.viol_groups = {}
+    chk.suppressed = 0
     lean_ok = lean_gate(chk, THEOREMS)
     if not lean_ok:
         return chk.finish(level="proof", rule="", trusted_base=TRUSTED)
@@ -531,6 +542,11 @@ def run(tier, only=None):
         ("DistExp", ["l"], {"l": "2"}, [Fr(2)]),
         ("Categorical", ["p", "1 - p"], {"p": "1/4"}, [Fr(1, 4), Fr(3, 4)]),
         ("Bernoulli", ["p"], {"p": "1/4"}, [Fr(1, 4)]),
+        ("Normal", ["m", "s"], {"m": "-1/2", "s": "3"}, [Fr(-1, 2), Fr(3)]),
+        ("Laplace", ["m", "b"], {"m": "2", "b": "1/3"}, [Fr(2), Fr(1, 3)]),
+        ("Gamma", ["k", "th"], {"k": "5/2", "th": "2"}, [Fr(5, 2), Fr(2)]),
+        ("Beta", ["a", "b", "sc"], {"a": "2", "b": "1/2", "sc": "3"}, [Fr(2), Fr(1, 2), Fr(3)]),
+        ("Uniform", ["a", "a + w"], {"a": "-1", "w": "4"}, [Fr(-1), Fr(3)]),
     ]
     for j, (name, ps, point, vals) in enumerate(subs_cases):
         add_task("subs", j, "subs_consistency", {"name": name, "params": ps, "point": point, "ks": [1, 2, 3]}, 30)
@@ -576,8 +592,7 @@ def run(tier, only=None):
     chk.count("parameter-sets", len(sets))
     for k, v in n_cmp.items():
         chk.count("compared:" + k, v)
-    n_harness_err = len(chk.harness_errors)
-    chk.obligation("correspondence:moments-vs-specification", n_cmp["moments"] > 0 and n_harness_err == 0,
+    chk.obligation("correspondence:moments-vs-specification", n_cmp["moments"] > 0,
                    {"compared": n_cmp["moments"], "by_family": by_family})
     chk.obligation("correspondence:code-vs-model-of-code(distimpl)", n_cmp["impl"] > 0, {"compared": n_cmp["impl"]})
     chk.obligation("correspondence:support-and-discreteness", n_cmp["support"] > 0, {"compared": n_cmp["support"]})
@@ -594,11 +609,18 @@ def run(tier, only=None):
         "Normal/Laplace/Gamma/Beta with symbolic parameters and TruncNormal with irrational sigma are refused by "
         "get_moment (TypeError / EvaluationException); refusals are counted, not judged",
     ]
-    return chk.finish(
+    code = chk.finish(
         level="proof",
-        rule="a case is one (family, parameter set, order k, observable); non-trivial iff k >= 2 or the parameters are "
-             "not the family's defaults; distinct by (family, parameters, point)",
+        rule="a case is one comparison (family, parameter set, observable, order k / point t / iteration n); it is "
+             "non-trivial iff it is a moment or pipeline value of order k >= 2 resp. n >= 1, a transform derivative of "
+             "order >= 1, an mgf_exists_at verdict, a support comparison or a rewritten pair; distinct by these keys",
         trusted_base=TRUSTED)
+    if code == 0 and chk.harness_errors:
+        # nothing was refuted, but part of the machinery failed (worker exception / crash): not a verdict
+        for h in chk.harness_errors[:5]:
+            print("harness error:", h, file=sys.stderr)
+        return 2
+    return code
 
 
 def mgf_points(c):
